@@ -37,13 +37,15 @@ ReachSet(g, frontier, seen) ==
   IF frontier = {} THEN seen
   ELSE LET nxt == (UNION {Targets(g, x) : x \in frontier}) \ seen IN ReachSet(g, nxt, seen \cup nxt)
 Reach(g, x) == ReachSet(g, {x}, {x})                \* x and everything it mentions, transitively
-BadMember(m) == m.to = "f64" \/ m.via = "hmap"
-IdealDerive(g, x) == \A y \in Reach(g, x) : \A i \in DOMAIN g[y] : ~BadMember(g[y][i])
+\* K = "heo": #[derive(Hash, Eq, Ord)] -- f64 and hash containers implement none of them;
+\* K = "po":  #[derive(PartialOrd)]     -- hash containers do not implement it (the second instance of the same plugin)
+BadMember(K, m) == (K = "heo" /\ m.to = "f64") \/ m.via = "hmap"
+IdealDerive(K, g, x) == \A y \in Reach(g, x) : \A i \in DOMAIN g[y] : ~BadMember(K, g[y][i])
 
 \* --------------------------------------------------------------- as built
-Pred(m) == IF m.via = "hmap" THEN "No"
-           ELSE IF m.via \in {"direct", "list"} /\ m.to = "f64" THEN "No"
-           ELSE "GoOn"
+Pred(K, m) == IF m.via = "hmap" THEN "No"
+              ELSE IF K = "heo" /\ m.via \in {"direct", "list"} /\ m.to = "f64" THEN "No"
+              ELSE "GoOn"
 GraphTargets(g, x, EdgeVias) == {g[x][i].to : i \in {j \in DOMAIN g[x] : g[x][j].via \in EdgeVias}} \ Leaves
 RECURSIVE GReach(_, _, _, _)
 GReach(g, EdgeVias, frontier, seen) ==
@@ -52,19 +54,19 @@ GReach(g, EdgeVias, frontier, seen) ==
 IsNested(g, EdgeVias, a, b) == b \in GReach(g, EdgeVias, {a}, {a})
 
 \* st = [cache |-> [node -> "None" | "Yes" | "No" | "Delay"], delayed |-> set of nodes]
-RECURSIVE CanDerive(_, _, _, _, _)
-RECURSIVE Members(_, _, _, _, _, _, _)
+RECURSIVE CanDerive(_, _, _, _, _, _)
+RECURSIVE Members(_, _, _, _, _, _, _, _)
 \* decide the struct targets of members i.. of x one after the other; acc = the answers so far
-Members(g, EV, x, i, visiting, st, acc) ==
+Members(K, g, EV, x, i, visiting, st, acc) ==
   IF i > Len(g[x]) THEN [rs |-> acc, st |-> st]
-  ELSE IF g[x][i].to \in Leaves THEN Members(g, EV, x, i + 1, visiting, st, acc)
-  ELSE LET r == CanDerive(g, EV, g[x][i].to, visiting, st) IN Members(g, EV, x, i + 1, visiting, r.st, Append(acc, r.r))
-CanDerive(g, EV, x, visiting, st) ==
+  ELSE IF g[x][i].to \in Leaves THEN Members(K, g, EV, x, i + 1, visiting, st, acc)
+  ELSE LET r == CanDerive(K, g, EV, g[x][i].to, visiting, st) IN Members(K, g, EV, x, i + 1, visiting, r.st, Append(acc, r.r))
+CanDerive(K, g, EV, x, visiting, st) ==
   IF st.cache[x] # "None" THEN [r |-> st.cache[x], st |-> st]
   ELSE IF x \in visiting THEN [r |-> "Delay", st |-> st]
-  ELSE IF \E i \in DOMAIN g[x] : Pred(g[x][i]) = "No"
+  ELSE IF \E i \in DOMAIN g[x] : Pred(K, g[x][i]) = "No"
        THEN [r |-> "No", st |-> [st EXCEPT !.cache[x] = "No"]]
-  ELSE LET m == Members(g, EV, x, 1, visiting \cup {x}, st, <<>>)
+  ELSE LET m == Members(K, g, EV, x, 1, visiting \cup {x}, st, <<>>)
            anyNo == \E k \in DOMAIN m.rs : m.rs[k] = "No"
            anyDelay == \E k \in DOMAIN m.rs : m.rs[k] = "Delay"
        IN IF anyNo THEN
@@ -73,15 +75,15 @@ CanDerive(g, EV, x, visiting, st) ==
           ELSE IF anyDelay THEN [r |-> "Delay", st |-> [cache |-> [m.st.cache EXCEPT ![x] = "Delay"], delayed |-> m.st.delayed \cup {x}]]
           ELSE [r |-> "Yes", st |-> [cache |-> [m.st.cache EXCEPT ![x] = "Yes"], delayed |-> m.st.delayed]]
 
-RECURSIVE Run(_, _, _, _, _)
-Run(g, EV, order, k, cache) ==
+RECURSIVE Run(_, _, _, _, _, _)
+Run(K, g, EV, order, k, cache) ==
   IF k > Len(order) THEN cache
-  ELSE Run(g, EV, order, k + 1, CanDerive(g, EV, order[k], {}, [cache |-> cache, delayed |-> {}]).st.cache)
-AsBuilt(g, EV, order) == LET c == Run(g, EV, order, 1, [n \in Nodes(g) |-> "None"]) IN [n \in Nodes(g) |-> c[n] # "No"]
+  ELSE Run(K, g, EV, order, k + 1, CanDerive(K, g, EV, order[k], {}, [cache |-> cache, delayed |-> {}]).st.cache)
+AsBuilt(K, g, EV, order) == LET c == Run(K, g, EV, order, 1, [n \in Nodes(g) |-> "None"]) IN [n \in Nodes(g) |-> c[n] # "No"]
 
 \* does the emitted code compile as far as these derives go?  a struct that derives must hold only members that implement them
-MemberImpl(g, d, m) == m.via # "hmap" /\ m.to # "f64" /\ (m.to \in Leaves \/ d[m.to])
-Compiles(g, d) == \A x \in Nodes(g) : d[x] => \A i \in DOMAIN g[x] : MemberImpl(g, d, g[x][i])
+MemberImpl(K, g, d, m) == ~BadMember(K, m) /\ (m.to \in Leaves \/ d[m.to])
+Compiles(K, g, d) == \A x \in Nodes(g) : d[x] => \A i \in DOMAIN g[x] : MemberImpl(K, g, d, g[x][i])
 \* the blind spot of the predicate: an f64 it cannot see
 Blind(g) == \E x \in Nodes(g) : \E i \in DOMAIN g[x] : g[x][i].to = "f64" /\ g[x][i].via \in {"arc", "bmap"}
 =============================================================================
